@@ -363,10 +363,7 @@ Proof.
   destruct (Z.lt_trichotomy s1 s2) as [L|[E|G]].
   - destruct (seg_ok_two x s1 s2 H1 H2 L) as [-> ->]. destruct H1 as (R1 & _). destruct H2 as (R2 & _).
     unfold after. rewrite knot_test_right by lia. rewrite knot_test_left by lia. reflexivity.
-  - subst s2. unfold after. destruct (knot_test eps xp yp m x s1) as [[y|nr]|]; try reflexivity.
-    destruct (_ && _); [|reflexivity].
-    destruct (take_y _ _ _); [|reflexivity]. destruct (rd yp _); [|reflexivity].
-    destruct (outer _ _ _ _ _ _ _ _ _ _ _ _); reflexivity.
+  - subst s2. unfold after. destruct (knot_test eps xp yp m x s1) as [[y|nr]|]; reflexivity.
   - destruct (seg_ok_two x s2 s1 H2 H1 ltac:(lia)) as [-> ->]. destruct H2 as (R2 & _). destruct H1 as (R1 & _).
     unfold after. rewrite knot_test_right by lia. rewrite knot_test_left by lia. reflexivity.
 Qed.
